@@ -67,6 +67,7 @@ impl Domain for CrashDomain {
                     nontrivial: false,
                     classes: vec![],
                     excluded: vec![],
+            counters: vec![],
                 }
             }
         };
@@ -85,6 +86,7 @@ impl Domain for CrashDomain {
             nontrivial: (self.nontrivial)(&run),
             classes: crash_classes(&run, &case),
             excluded: vec![],
+            counters: vec![],
         }
     }
 }
@@ -92,7 +94,7 @@ impl Domain for CrashDomain {
 fn crash_profile() -> Profile {
     Profile {
         max_ops: 25,
-        op_weights: [46, 4, 16, 14, 6, 6, 8],
+        op_weights: [50, 4, 17, 16, 7, 6, 0],
         cb_weights: [30, 25, 20, 20, 5, 0],
         max_cluster_bits: 14,
         max_clusters: 40,
